@@ -47,12 +47,22 @@ func libGoroutines() []string {
 		if !strings.Contains(first, tag) {
 			continue
 		}
-		if strings.Contains(b, "created by nhooyr.io/websocket.") {
+		// (the context package's propagation goroutines only exist in this check for
+		// the foreign context handed to NetConn)
+		if strings.Contains(b, "created by nhooyr.io/websocket.") || strings.Contains(b, "context.(*cancelCtx).propagateCancel") {
 			out = append(out, b)
 		}
 	}
 	return out
 }
+
+// c20ForeignCtx is a context.Context implemented outside the context package.
+type c20ForeignCtx struct {
+	context.Context
+	done chan struct{}
+}
+
+func (f *c20ForeignCtx) Done() <-chan struct{} { return f.done }
 
 var c20Endings = []string{"Close", "CloseNow", "peer-close-then-Close", "protocol-error-then-CloseNow", "ctx-expiry-then-Close", "cut-eof-then-Close", "cut-err-then-CloseNow", "silent-peer-Close", "peer-close-then-CloseNow", "closeread-data-then-Close", "closeread-partial-data-stall-then-CloseNow", "closeread-partial-data-stall-then-Close", "write-error-then-CloseNow", "write-error-then-Close", "Close-unsendable-code", "Close-oversize-reason", "Close-and-CloseNow-together-peer-slow-and-silent", "closeread-data-behind-a-stalled-write-then-CloseNow", "closeread-data-silent-peer-ping-during-handshake-then-CloseNow"}
 
@@ -204,9 +214,15 @@ func runC20(r *Run) {
 		}
 		var nc io.ReadWriteCloser
 		if p.netconn {
-			n := websocket.NetConn(bg, c, websocket.MessageBinary)
+			// the application's context is not one of the context package's own types:
+			// the adapter's derived read and write contexts then each need a goroutine
+			// (started inside NetConn) that only the adapter's Close ends
+			fctx := &c20ForeignCtx{Context: bg, done: make(chan struct{})}
+			n := websocket.NetConn(fctx, c, websocket.MessageBinary)
 			n.SetDeadline(time.Now().Add(time.Hour))
 			nc = n
+			mine += 2
+			openLib += 2
 		}
 		for i := 0; i < p.writes; i++ {
 			r.S.Park("a." + who + ".w")
@@ -277,6 +293,10 @@ func runC20(r *Run) {
 		var cerr error
 		switch p.ending {
 		case 0, 7:
+			if nc != nil && p.ending == 0 {
+				cerr = nc.Close() // (closes the connection with 1000)
+				break
+			}
 			cerr = c.Close(websocket.StatusNormalClosure, "done")
 		case 1:
 			cerr = c.CloseNow()
@@ -381,6 +401,18 @@ func runC20(r *Run) {
 				c.Close(websocket.StatusNormalClosure, "done")
 				firstDone = true
 			})
+			if !p.closeRead && p.writes != 1 {
+				// a third goroutine calls CloseRead for the first time while both
+				// closers are already waiting (one more goroutine of this connection
+				// for the checks of connections that run concurrently)
+				mine++
+				openLib++
+				r.S.Go(fmt.Sprintf("%s.latecr%d", who, idx), func() {
+					r.S.Sleep(700 * time.Millisecond)
+					c.CloseRead(bg)
+					r.S.Count("probe.closeread-called-while-closers-wait")
+				})
+			}
 			r.S.Sleep(500 * time.Millisecond)
 			cerr = c.CloseNow()
 			r.S.Count("probe.closenow-during-slow-close")
@@ -411,6 +443,10 @@ func runC20(r *Run) {
 			cerr = c.Close(websocket.StatusNormalClosure, "done")
 		}
 		_ = cerr
+		if nc != nil {
+			// an application closes the net.Conn it was given, whatever ended the connection
+			nc.Close()
+		}
 		if p.pair {
 			other.CloseNow()
 		}
